@@ -87,7 +87,7 @@ def _check_forwarding(res, mod, fn, call, key):
     return kws
 
 
-@rule("C08.polarity", ["C08", "C09"],
+@rule("C08.polarity", ["C08", "C09", "C12"],
       "maintainers unhook what left (old/removed) and hook what arrived "
       "(new/added), forwarding graph, handler, target and dispatcher")
 def polarity(ctx, res):
@@ -205,7 +205,7 @@ def _yields(fn):
     return out
 
 
-@rule("C08.projection", ["C08"],
+@rule("C08.projection", ["C08", "C12"],
       "what an observer hooks at registration (iter_objects) is the same "
       "projection its maintainer applies to added/removed items")
 def projection(ctx, res):
@@ -905,6 +905,43 @@ def weak(ctx, res):
                                f"collected")
         res.oblige(saw_target and saw_method, qual + ":sites", mod.loc(fn),
                    "target / bound-method storage sites not found")
+    # the handlers that the class-level machinery itself registers for every
+    # instance (Property(observe=...)): the notifier weakens a handler only
+    # when it is a bound method, so the per-instance handler must be one - a
+    # closure over the instance would be held strongly by every observed
+    # object and keep the owner alive
+    HTP = "traits/has_traits.py"
+    mod_ht = repo.module(HTP)
+    fac = repo.func(HTP, "_create_property_observe_state")
+    getters = [f for f in ast.walk(fac) if isinstance(f, ast.FunctionDef)
+               and f is not fac and any(
+                   isinstance(r, ast.Return) and r.value is not None
+                   and not isinstance(r.value, ast.Constant)
+                   for r in ast.walk(f))
+               and len(f.args.args) == 2]
+    if not getters:
+        raise AnalysisError("_create_property_observe_state: handler getter "
+                            "not found")
+    for gfn in getters:
+        inst_p = gfn.args.args[0].arg
+        rets = [r for r in ast.walk(gfn) if isinstance(r, ast.Return)]
+        res.instance(f"_create_property_observe_state.{gfn.name}",
+                     mod_ht.loc(gfn), returns=len(rets))
+        for r in rets:
+            v = r.value
+            ok = isinstance(v, ast.Call) and norm(v.func) in (
+                "types.MethodType", "MethodType") and len(v.args) == 2 \
+                and norm(v.args[1]) == inst_p
+            ok = ok or (isinstance(v, ast.Call) and norm(v.func) == "getattr"
+                        and v.args and norm(v.args[0]) == inst_p)
+            res.oblige(ok, f"property-observer:{gfn.name}:bound-method",
+                       mod_ht.loc(r),
+                       f"the per-instance handler of an observed property is "
+                       f"`{norm(v)[:60] if v is not None else None}`, not a "
+                       f"method bound to `{inst_p}`: the notifiers keep "
+                       f"anything but a bound method strongly, so every "
+                       f"object on the observed path would keep the owner "
+                       f"alive (and its handler firing)")
     # legacy wrapper
     rel = "traits/trait_notifiers.py"
     mod = repo.module(rel)
